@@ -203,7 +203,7 @@ func TestVerifC08(t *testing.T) {
 	}
 	defer s.Close()
 	hookDir()
-	nSessions := c.Share(c.Pick(60, 1500))
+	nSessions := c.Share(c.Pick(60, 800))
 	nKeys := 150
 	for n := 0; n < nSessions; n++ {
 		if c.Past(n) || c.Stop() {
